@@ -33,9 +33,11 @@ Section Verify.
     : res (list (list N * hval)) :=
     let e_hashes := sorted_strs hashes in
     libs <- manifest_hashes_to_hashlib e_hashes ;;
+    (* hash objects are created (UnsupportedHash raised) before anything is read *)
+    _ <- make_hashes L (w_avail w) (libs ++ [s_size]) [] ;;
     data <- p_read w i ;;
     (* a persistent read fault hits both read() and read1(); the schedule is the whole content *)
-    cks <- hash_file L (w_avail w) (libs ++ [s_size]) [data] data (st_size st) ;;
+    cks <- hash_file L (w_avail w) (libs ++ [s_size]) (match data with [] => [] | _ => [data] end) data (st_size st) ;;
     (* ret[ek] = checksums[k] for ek, k in zip(e_hashes + ['__size__'], hashes + ['__size__']) *)
     (fix zipret (eks ks : list (list N)) (acc : list (list N * hval)) : res (list (list N * hval)) :=
        match eks, ks with
